@@ -20,6 +20,7 @@ import re
 import threading
 import types
 from datetime import date, datetime
+from uuid import UUID
 from typing import Any, Callable, TypeVar, Union, get_args, get_origin, get_type_hints
 
 import cattrs
@@ -303,6 +304,31 @@ converter.register_structure_hook(datetime, structure_datetime)
 converter.register_unstructure_hook(datetime, unstructure_datetime)
 converter.register_structure_hook(date, structure_date)
 converter.register_unstructure_hook(date, unstructure_date)
+
+
+def structure_uuid(data: str | UUID, _: type[UUID]) -> UUID:
+    """
+    Structure hook for UUID values (OpenAPI ``format: uuid`` is rendered as ``uuid.UUID``).
+
+    Args:
+        data: Canonical UUID string, or an already structured UUID
+        _: Target type (UUID)
+
+    Returns:
+        UUID instance
+    """
+    if isinstance(data, UUID):
+        return data
+    return UUID(data)
+
+
+def unstructure_uuid(data: UUID) -> str:
+    """Unstructure hook for UUID values: the canonical string form."""
+    return str(data)
+
+
+converter.register_structure_hook(UUID, structure_uuid)
+converter.register_unstructure_hook(UUID, unstructure_uuid)
 
 
 # =============================================================================
